@@ -163,10 +163,10 @@ def _run(check, ctx, rep, replay):
             else:
                 groups = {}
                 for l in base:
-                    t = l.split(' ')
-                    ints = [k for k in range(1, len(t)) if t[k].lstrip('-').isdigit()]
-                    k = ints[-1] if ints else len(t)
-                    groups.setdefault((t[0], tuple(t[1:k] + t[k + 1:])), []).append(l)
+                    tk_ = l.split(' ')
+                    ints = [k for k in range(1, len(tk_)) if tk_[k].lstrip('-').isdigit()]
+                    k = ints[-1] if ints else len(tk_)
+                    groups.setdefault((tk_[0], tuple(tk_[1:k] + tk_[k + 1:])), []).append(l)
                 keys = sorted(groups); ctx.rng.shuffle(keys)
                 probe = []
                 for k in keys:
